@@ -264,7 +264,10 @@ func (req *SrvReq) Process() {
 	srv := conn.Srv
 	tc := req.Tc
 
-	if tc.Fid != NOFID && tc.Type != Tattach {
+	switch tc.Type {
+	case Tversion, Tauth, Tattach, Tflush:
+		// no fid[4] to look up (Tattach creates its fid)
+	case Twalk, Topen, Tcreate, Tread, Twrite, Tclunk, Tremove, Tstat, Twstat:
 		srv.Lock()
 		req.Fid = conn.FidGet(tc.Fid)
 		srv.Unlock()
